@@ -37,5 +37,6 @@ def forwarders(repo):
                 out[fn.name] = dict(target=f"numpoly.{f.attr}", args=[a.id for a in call.args], defaults=defaults, static=static,
                                     kwargs={k.arg: k.value.id for k in call.keywords if k.arg},
                                     star_kwargs=[k.value.id for k in call.keywords if k.arg is None],
-                                    params=[a.arg for a in fn.args.args], lineno=fn.lineno)
+                                    params=[a.arg for a in fn.args.args] + [a.arg for a in fn.args.kwonlyargs], lineno=fn.lineno,
+                                    has_varkw=fn.args.kwarg is not None, varkw=fn.args.kwarg.arg if fn.args.kwarg else None)
     return out
